@@ -248,9 +248,9 @@ def _check(ctx, case):
 
 
 SUBS = [
-    Sub(name="integer", body=_check, strategy=int_strategy, quick=120, thorough=10000, lanes=("f64", "f32"),
+    Sub(name="integer", body=_check, strategy=int_strategy, quick=100, thorough=10000, lanes=("f64", "f32"),
         f32_fraction=0.25, rule="nearest integer clipped to [0, M-1]; isotropic and diagonal material sets"),
-    Sub(name="inverse", body=_check, strategy=inv_strategy, quick=120, thorough=10000, lanes=("f64", "f32"),
+    Sub(name="inverse", body=_check, strategy=inv_strategy, quick=100, thorough=10000, lanes=("f64", "f32"),
         f32_fraction=0.25, rule="nearest inverse permittivity, isotropic material sets in non-sorted dict order"),
 ]
 
